@@ -11,8 +11,8 @@ RULE = ("scenario = initial on-disk logs of 4 partitions (transactions of 1..3 e
         "+ one subscription (kind cycles all-partitions / one partition / several partitions / one stream / several streams; start Latest, AllPartitions(n)/AllStreams(n), explicit map with or without "
         "fallback, positions 0 / watermark / watermark-1 / end / beyond / random; window cycles 1, 2, 10, sometimes 100) + a schedule of 3..20 steps before/after Subscribe drawn from "
         "{direct unconfirmed append, ConfirmTransaction (watermark moves, nothing broadcast), ExecuteTransaction (append+confirm+broadcast), ack, release one history pause point, release all, flush} "
-        "and a closing sequence (confirm, one write per partition, flush). 240 such scenarios (quick) / 1500 (thorough); plus 50 / 300 'batches' scenarios (a 52..125-transaction partition so that the "
-        "history read takes several batches, the watermark / log / acknowledgements change at the pause point between batches) and 4 / 20 'lag' scenarios (> 1024 events are broadcast while the "
+        "and a closing sequence (confirm, one write per partition, flush). 500 such scenarios (quick) / 4000 (thorough); plus 100 / 800 'batches' scenarios (a 52..125-transaction partition so that the "
+        "history read takes several batches, the watermark / log / acknowledgements change at the pause point between batches) and 8 / 40 'lag' scenarios (> 1024 events are broadcast while the "
         "subscription waits at a pause point or for an acknowledgement: Lagged -> history re-read). The subscription task runs freely between steps; the harness waits after each step until the "
         "task is provably blocked (hook log). Every scenario is also run through the extracted model (same annotated schedule) and the outputs must be equal. "
         "A case is non-trivial when at least one record was delivered. distinct = distinct case strings.")
